@@ -42,11 +42,17 @@ def monitor(ctx, modname, name, post, label=None):
     def wrapper(*args, **kwargs):
         if _active[0]:
             return original(*args, **kwargs)
+        # optional pre-hooks (post.pre(args, kwargs) -> token) observe the arguments BEFORE the call, e.g. to copy a
+        # table the callee might modify; the token is handed to the post-hook as a sixth argument
+        tokens = [p.pre(args, kwargs) if hasattr(p, 'pre') else None for p in posts]
         result = original(*args, **kwargs)
         _active[0] = True
         try:
-            for p in posts:
-                p(ctx, original, args, kwargs, result)
+            for p, tok in zip(posts, tokens):
+                if hasattr(p, 'pre'):
+                    p(ctx, original, args, kwargs, result, tok)
+                else:
+                    p(ctx, original, args, kwargs, result)
         except (LoopBoundExceeded, HarnessError):
             raise
         except Exception as e:   # an oracle bug is never a verdict
